@@ -224,7 +224,7 @@ Definition src_status_ok (x : status) : bool :=
   if src_must_be_justified V then status_eqb x Justified else negb (status_eqb x Finalized).
 
 (* addVerificationToCheckpoint for one verification *)
-Definition admit (s : state) (v : vmsg) : state :=
+Definition admit_ver (s : state) (v : vmsg) : state :=
   match find_ck (v_tgt v) (cks s), find_ck (v_src v) (cks s) with
   | Some t, Some src =>
     let tl' := add_ver (v_src v) (v_srch v) (v_key v) (v_sig v) (c_tl t) in
@@ -289,7 +289,7 @@ Definition vers_of_link (b h : N) (l : link) : list vmsg :=
    (only reachable in the pinned variant) *)
 Definition apply_link (b h : N) (s : state) (l : link) : option state :=
   if link_src_ok s l
-  then Some (fold_left admit (filter (verify s) (vers_of_link b h l)) s)
+  then Some (fold_left admit_ver (filter (verify s) (vers_of_link b h l)) s)
   else None.
 
 Fixpoint apply_links (b h : N) (s : state) (ls : list link) : state * bool :=
@@ -347,7 +347,7 @@ Definition auth (dupcheck : bool) (s : state) (pub src tgt : N) (x : sig) : stat
         let v := mkvmsg pub src (c_hgt sc) tgt (c_hgt t) x in
         if negb (verify s v) then (s, false)
         else
-          let s1 := post (admit s v) v in
+          let s1 := post (admit_ver s v) v in
           (* saveVerificationToHeader; fails when the target block is not stored *)
           if c_db t
           then (with_cks s1 (upd_ck tgt (fun c => set_hl (add_ver src (c_hgt sc) pub x (c_hl c)) c) (cks s1)), true)
@@ -370,9 +370,11 @@ Definition auth_cached (s : state) (pub src tgt : N) (x : sig) : state * bool :=
 Definition restart (s : state) (r : N) : state :=
   match find_ck r (cks s) with
   | None => s
-  | Some _ =>
-    let l := map (fun c => if c_id c =? r then set_tl [] c else set_tl (c_hl c) c) (cks s) in
-    mkst l (map c_id (filter (fun c => c_db c && desc r c) l)) r (adm s) (posted s)
+  | Some rc =>
+    if c_db rc then
+      let l := map (fun c => if c_id c =? r then set_tl [] c else set_tl (c_hl c) c) (cks s) in
+      mkst l (map c_id (filter (fun c => c_db c && desc r c) l)) r (adm s) (posted s)
+    else s                       (* no stored checkpoint under that key: the node cannot start from it *)
   end.
 
 (* ------------------------------------------------------------------ histories *)
